@@ -385,7 +385,7 @@ def kernel_descs(mode, tier, seed):
 
 def check_C08(tier, seed, t0):
     own = ["ResultBeforeComputeIsLogicError", "QrFinite", "QOrthogonal", "QRequalsShiftedH", "QtHQisSimilarity", "ApplyMultipliesByQ", "RUpperTriangular",
-           "QtHQHessenberg", "QtHQTridiagonalSymmetric", "FirstColumnParallel", "ExactOnTrivialRotations", "UnknownRow"]
+           "QtHQHessenberg", "QtHQTridiagonalSymmetric", "FirstColumnParallel", "ExactOnTrivialRotations", "UnknownRow", "Abort"]
     return ir_flow("C08", tier, seed, kernel_descs("qr", tier, seed), own, [], COMMON_ASSUME[:1] + [
         "numerical accuracy of the kernels is MEASURED on generated families (random, integer, graded, deflated, tiny/huge, Taylor-branch ratios, "
         "Jordan, companion, zero, repeated; shifts 0 / random / exact eigenvalue; 3 scalar types) and judged by the spec's formulas: sampling, not proof",
@@ -395,7 +395,7 @@ def check_C08(tier, seed, t0):
 
 def check_C09(tier, seed, t0):
     own = ["EigFinite", "BackwardStable", "OrthogonalOrUnitNorm", "QuasiTriangular", "BlocksStandardised", "ExactConjugatePairing",
-           "FailureIsRuntimeError", "DecompositionFailed", "UnknownRow"]
+           "FailureIsRuntimeError", "DecompositionFailed", "UnknownRow", "Abort"]
     return ir_flow("C09", tier, seed, kernel_descs("eig", tier, seed), own, [], COMMON_ASSUME[:1] + [
         "backward stability is MEASURED on generated families (sizes 2..64, 11 entry patterns incl. zero matrix, defective and repeated eigenvalues, "
         "scalings 1e-100/1e100, 3 scalar types) and judged by the spec: sampling, not proof",
@@ -407,7 +407,7 @@ def check_C09(tier, seed, t0):
 
 def check_C11(tier, seed, t0):
     descs = ["mode=matop;part=%s;reps=%d;nmax=%d;seed=%d" % (pt, n_of(tier, 3, 24), n_of(tier, 5, 12), seed) for pt in ("prod", "solve", "ssi")]
-    own = ["ProductExact", "RowsCols", "SolveFinite", "SolveAccurate", "ReadsOnlyItsTriangle", "ConfigSpaceComplete", "ShiftInvert64Combinations", "UnknownRow"]
+    own = ["ProductExact", "RowsCols", "SolveFinite", "SolveAccurate", "ReadsOnlyItsTriangle", "ConfigSpaceComplete", "ShiftInvert64Combinations", "UnknownRow", "Abort"]
     return ir_flow("C11", tier, seed, descs, own, [], COMMON_ASSUME[:1] + [
         "product wrappers: exact (integer matrices and vectors; the specification computes the product; unused triangle poisoned)",
         "solve wrappers and composite operators: residual of the defining equation measured in long double and judged with the condition number of the factorized matrix; "
@@ -497,7 +497,7 @@ def check_C10(tier, seed, t0):
     descs += ["mode=protocol"]
     own = ["VariantsSameStatus", "VariantsBitIdentical", "SolutionFinite", "StatusSuccessOrNumericalIssue", "NonsingularReportsSuccess", "ResidualSmall",
            "SingularReportsNumericalIssue", "SolveBeforeComputeIsLogicError", "NonSquareRejected", "WrapperThrowsIffNotSuccessful",
-           "RecomputeIndependentOfHistory", "UnknownRow"]
+           "RecomputeIndependentOfHistory", "UnknownRow", "Abort"]
     return ir_flow("C10", tier, seed, descs, own, [], COMMON_ASSUME[:1] + [
         "exact part: every symmetric matrix of order <= 3 over {-1,0,1,2} (order 4 over {-1,0,1}, strided) with shifts 0 and 1; nonsingularity decided by TLC with the exact integer determinant",
         "measured part: residuals in long double, judged only when the long double condition number of the shifted matrix is below 1/sqrt(eps)"], t0,
